@@ -5,13 +5,12 @@
 //          objects that are moved, move-assigned (onto empty / live / self),
 //          unregistered and destroyed; region 4 KiB (limit 4095) or 64 KiB.
 #include "../sim/world_common.hpp"
+#include "rlbox_noop_sandbox.hpp"
 #include <memory>
 #include <optional>
 
 using namespace sim;
 using Sbx = rlbox::rlbox_sim_sandbox;
-using Sandbox = rlbox::rlbox_sandbox<Sbx>;
-using Owner = rlbox::app_pointer<int*, Sbx>;
 
 enum Kind
 {
@@ -44,9 +43,11 @@ struct AppTokenWorld : World
   Plan generate(Rng& r, bool thorough) override
   {
     Plan p;
-    int layer = r.chance(1, 2) ? 0 : 1;
+    int layer = r.chance(1, 2) ? 0 : r.chance(3, 4) ? 1 : 2;
     int64_t limit;
-    if (layer == 0) {
+    if (layer == 2) {
+      limit = 1LL << 40; // noop: 64-bit tokens, exhaustion unreachable
+    } else if (layer == 0) {
       unsigned c = (unsigned)r.below(10);
       limit = c < 5 ? r.range(1, 6) : c < 7 ? 254 : r.range(7, 253);
     } else {
@@ -241,27 +242,36 @@ struct AppTokenWorld : World
   }
 
   // ---------------------------------------------------------------- layer 1
+  template<class SbxT>
   void run_owner(const Plan& p, Ctx& c)
   {
+    using Sandbox = rlbox::rlbox_sandbox<SbxT>;
+    using Owner = rlbox::app_pointer<int*, SbxT>;
+    constexpr bool is_sim = std::is_same_v<SbxT, Sbx>;
     int64_t limit = p.cfg.size() > 1 ? p.cfg[1] : 4095;
     Sbx::cfg = Sbx::Config();
     Sbx::cfg.size = limit >= 65535 ? 65536 : 4096;
-    limit = (int64_t)Sbx::cfg.size - 1;
+    limit = is_sim ? (int64_t)Sbx::cfg.size - 1 : INT64_MAX; // noop: the whole address space
     run_begin(&c);
     {
       auto sbp = std::make_unique<Sandbox>();
       Sandbox& sb = *sbp;
-      sb.create_sandbox(0);
-      auto base = (uintptr_t)sb.get_sandbox_impl()->mem.base;
+      uintptr_t base = 0;
+      if constexpr (is_sim) {
+        sb.create_sandbox(0);
+        base = (uintptr_t)sb.get_sandbox_impl()->mem.base;
+      } else {
+        sb.create_sandbox();
+      }
       struct Slot
       {
         std::unique_ptr<Owner> o;
-        uint32_t tok = 0; // model: 0 = holds nothing
+        uint64_t tok = 0; // model: 0 = holds nothing
         int* ptr = nullptr;
       };
       std::vector<Slot> slots;
-      std::map<uint32_t, int*> model;
-      std::vector<uint32_t> released;
+      std::map<uint64_t, int*> model;
+      std::vector<uint64_t> released;
       int next_obj = 0;
       auto live_slots = [&] {
         std::vector<size_t> v;
@@ -277,9 +287,9 @@ struct AppTokenWorld : World
             v.push_back(i);
         return v;
       };
-      auto raw_lookup = [&](uint32_t tok, int*& got) {
+      auto raw_lookup = [&](uint64_t tok, int*& got) {
         return attempt([&] {
-          rlbox::tainted<int*, Sbx> t;
+          rlbox::tainted<int*, SbxT> t;
           t.assign_raw_pointer(sb, reinterpret_cast<int*>(base + tok));
           got = sb.lookup_app_ptr(t);
         });
@@ -301,19 +311,19 @@ struct AppTokenWorld : World
           c.violate("C15", std::string("registration_refused_with_free_token@") + opn, "live=%zu msg=%s", model.size(), g_last_abort_msg.c_str());
           return false;
         }
-        uint32_t tok = s.o->UNSAFE_sandboxed(sb);
+        uint64_t tok = (uint64_t)(uintptr_t)s.o->UNSAFE_sandboxed(sb);
         auto addr = (uintptr_t)s.o->to_tainted().UNSAFE_unverified();
-        c.ev("reg -> tok=%u", tok);
-        if (tok == 0 || tok > (uint32_t)limit || model.count(tok)) {
+        c.ev("reg -> tok=%llu", (unsigned long long)tok);
+        if (tok == 0 || tok > (uint64_t)limit || model.count(tok)) {
           c.violate("C15",
-                    std::string(tok == 0 ? "zero_token@" : tok > (uint32_t)limit ? "token_over_limit@" : "duplicate_token@") + opn,
-                    "token=%u live=%zu",
-                    tok,
+                    std::string(tok == 0 ? "zero_token@" : tok > (uint64_t)limit ? "token_over_limit@" : "duplicate_token@") + opn,
+                    "token=%llu live=%zu",
+                    (unsigned long long)tok,
                     model.size());
           return false;
         }
         if (addr != base + tok || s.o->is_unregistered()) {
-          c.violate("C15", std::string("owner_designates_wrong_address@") + opn, "token=%u addr-base=%lld", tok, (long long)(addr - base));
+          c.violate("C15", std::string("owner_designates_wrong_address@") + opn, "token=%llu addr-base=%lld", (unsigned long long)tok, (long long)(addr - base));
           return false;
         }
         auto it = std::find(released.begin(), released.end(), tok);
@@ -368,29 +378,29 @@ struct AppTokenWorld : World
             auto t = s.o->to_tainted();
             Outcome o = attempt([&] { got = sb.lookup_app_ptr(t); });
             if (o != OK || got != s.ptr)
-              c.violate("C15", "live_token_wrong_pointer@lookup_live", "token=%u outcome=%s", s.tok, oname(o));
+              c.violate("C15", "live_token_wrong_pointer@lookup_live", "token=%llu outcome=%s", (unsigned long long)s.tok, oname(o));
             break;
           }
           case K_LOOKUP_DEAD: {
             if (released.empty())
               break;
-            uint32_t tok = released[(uint64_t)op.a[0] % released.size()];
+            uint64_t tok = released[(uint64_t)op.a[0] % released.size()];
             int* got = nullptr;
             Outcome o = raw_lookup(tok, got);
-            c.ev("lookup dead %u -> %s", tok, oname(o));
+            c.ev("lookup dead %llu -> %s", (unsigned long long)tok, oname(o));
             c.probe("lookup_of_released_token");
             if (o != ABORT)
-              c.violate("C15", "released_token_still_resolves@lookup_dead", "token=%u", tok);
+              c.violate("C15", "released_token_still_resolves@lookup_dead", "token=%llu", (unsigned long long)tok);
             break;
           }
           case K_LOOKUP_RAW: {
-            uint32_t tok = (uint32_t)((uint64_t)op.a[0] % (uint64_t)(limit + 1));
+            uint64_t tok = (uint64_t)op.a[0] % (is_sim ? (uint64_t)(limit + 1) : (uint64_t)10000);
             if (tok == 0 || model.count(tok))
               break;
             int* got = nullptr;
             Outcome o = raw_lookup(tok, got);
             if (o != ABORT)
-              c.violate("C15", "never_issued_token_resolves@lookup_raw", "token=%u", tok);
+              c.violate("C15", "never_issued_token_resolves@lookup_raw", "token=%llu", (unsigned long long)tok);
             break;
           }
           case K_MOVE_CONSTRUCT: {
@@ -446,7 +456,7 @@ struct AppTokenWorld : World
             Slot& s = slots[ex[(uint64_t)op.a[0] % ex.size()]];
             Outcome o = attempt([&] { s.o->unregister(); });
             if (o != OK) {
-              c.violate("C15", "unregister_aborts@unregister", "tok=%u", s.tok);
+              c.violate("C15", "unregister_aborts@unregister", "tok=%llu", (unsigned long long)s.tok);
               break;
             }
             release_model(s);
@@ -473,7 +483,7 @@ struct AppTokenWorld : World
             continue;
           bool unreg = s.o->is_unregistered();
           if (unreg != (s.tok == 0)) {
-            c.violate("C15", std::string("owner_registered_flag_wrong@") + opn, "model tok=%u is_unregistered=%d", s.tok, (int)unreg);
+            c.violate("C15", std::string("owner_registered_flag_wrong@") + opn, "model tok=%llu is_unregistered=%d", (unsigned long long)s.tok, (int)unreg);
             break;
           }
           if (s.tok && checked < 24) {
@@ -481,19 +491,19 @@ struct AppTokenWorld : World
             int* got = nullptr;
             auto t = s.o->to_tainted();
             Outcome o = attempt([&] { got = sb.lookup_app_ptr(t); });
-            if (o != OK || got != s.ptr || s.o->UNSAFE_sandboxed(sb) != s.tok) {
-              c.violate("C15", std::string("live_token_wrong_pointer@") + opn, "token=%u outcome=%s", s.tok, oname(o));
+            if (o != OK || got != s.ptr || (uint64_t)(uintptr_t)s.o->UNSAFE_sandboxed(sb) != s.tok) {
+              c.violate("C15", std::string("live_token_wrong_pointer@") + opn, "token=%llu outcome=%s", (unsigned long long)s.tok, oname(o));
               break;
             }
           }
         }
         // released tokens must not resolve (bounded sweep over the most recent)
         for (size_t k = 0; k < released.size() && k < 6 && !c.stop; k++) {
-          uint32_t tok = released[released.size() - 1 - k];
+          uint64_t tok = released[released.size() - 1 - k];
           int* got = nullptr;
           Outcome o = raw_lookup(tok, got);
           if (o != ABORT)
-            c.violate("C15", std::string("released_token_still_resolves@") + opn, "token=%u", tok);
+            c.violate("C15", std::string("released_token_still_resolves@") + opn, "token=%llu", (unsigned long long)tok);
         }
       }
       // owners die before the sandbox object
@@ -509,8 +519,10 @@ struct AppTokenWorld : World
     c.ev("layer %d limit %lld", layer, (long long)(p.cfg.size() > 1 ? p.cfg[1] : -1));
     if (layer == 0)
       run_map(p, c);
+    else if (layer == 1)
+      run_owner<Sbx>(p, c);
     else
-      run_owner(p, c);
+      run_owner<rlbox::rlbox_noop_sandbox>(p, c);
   }
 
   std::vector<Plan> regression_plans() override
